@@ -136,7 +136,8 @@ fn c11_real_decoder_empty_streams() {
     kani::cover!(wrapped);
 }
 
-// @tier thorough
+// @tier offline
+// @offline not registered: the solver reached the 24 GB cap after 11 minutes in the trial run (error paths inside nintendo_lz, DESIGN.md §2)
 // @timeout 2400
 // @mem 24
 // @bounds real decoder on the 4-byte header 12 01 00 00 (unknown type)
@@ -239,7 +240,8 @@ fn c11_backref_before_start() {
     std::mem::forget(r);
 }
 
-// @tier thorough
+// @tier offline
+// @offline not registered: the solver reached the 24 GB cap after 11 minutes in the trial run (error paths inside nintendo_lz, DESIGN.md §2)
 // @timeout 2400
 // @mem 24
 // @bounds LZ10 stream "L R3" cut one byte short (literal byte symbolic)
